@@ -193,6 +193,10 @@ func getMatchedCreds( //nolint:gocyclo,funlen
 		}
 
 		for _, mapping := range descriptorMap {
+			if mapping == nil {
+				return nil, fmt.Errorf("%s has a null entry", descriptorMapProperty)
+			}
+
 			// The object MUST include an id property, and its value MUST be a string matching the id property of
 			// the Input Descriptor in the Presentation Definition the submission is related to.
 			if _, ok := descriptorIDs[mapping.ID]; !ok {
